@@ -110,10 +110,11 @@ def gen_items(rng):
     n = int(rng.choice([300, 1000, 4000, 12000]))
     items = []
     mix = str(rng.choice(["same", "same", "different", "near-equal"])) if k >= 2 else "same"
+    coarse = set(int(i) for i in rng.choice(k, size=int(rng.integers(1, k)), replace=False)) if k >= 2 else set()
     for i in range(k):
         a = gen.recording_arrays(rng, n, None, amp=float(10 ** rng.uniform(-3, 3)))
         dti = dt
-        if mix == "different" and i % 2:
+        if mix == "different" and i in coarse:          # coarser recordings anywhere in the list, also first
             dti = dt * 2
         elif mix == "near-equal" and i % 2:
             dti = float(np.float32(dt)) if float(np.float32(dt)) != dt else dt * (1 + 1e-7)
@@ -136,6 +137,8 @@ def fam_history(ctx, rng):
     import hvsrpy
     items, dt, n = gen_items(rng)
     cfg = gen_cfg(rng, dt, n)
+    if len(items) >= 2 and not cfg["kind"].startswith("psd"):
+        cfg["policy"] = str(rng.choice(["frequency_domain_resampling", "keeping_smallest_time_step", "keeping_majority_time_step"]))
     hist = str(rng.choice(["twice", "two-methods", "interleaved-settings"]))
     ctx.describe(n_recordings=len(items), dt=dt, n=n, history=hist, **cfg)
     recs = [gen.make_recording(np.array(it[0]), np.array(it[1]), np.array(it[2]), it[3],
